@@ -567,6 +567,12 @@ func (in *Interp) indexSeq(s, sep seqView) *Term {
 	if s.O == nil {
 		return neg
 	}
+	if s.O.lenOnly || (sep.O != nil && sep.O.lenOnly) {
+		// contents unknown: any position (or none) is possible
+		r := in.freshVar("idxlo", BV(64))
+		in.assumeX(ts.Or(ts.Eq(r, neg), ts.And(ts.Ule(ts.Const(64, m), s.Len), ts.Ule(r, ts.Sub(s.Len, ts.Const(64, m))))), "Index result range")
+		return r
+	}
 	_, hi := in.ival(s.Len)
 	if hi > uint64(s.O.phys) {
 		hi = uint64(s.O.phys)
